@@ -14,6 +14,7 @@ Stage B  TLC emits the histories with the expected term per step; the harness ex
 from __future__ import annotations
 
 import copy
+import pickle
 from concurrent.futures import ProcessPoolExecutor
 
 import numpy as np
@@ -221,6 +222,15 @@ def run_history(args):
                 inner = objs[obj].change_detector if spec_of[obj][0] == "anomaliser" else objs[obj]
                 scorers[cost_of[obj]] = getattr(inner, spec_of[obj][1])
                 got = "ok"
+            elif op == "pickle":
+                objs[obj] = pickle.loads(pickle.dumps(objs[obj]))
+                cost_of[obj] = "c1" if obj == "d1" else "c2"
+                inner = objs[obj].change_detector if spec_of[obj][0] == "anomaliser" else objs[obj]
+                scorers[cost_of[obj]] = getattr(inner, spec_of[obj][1])
+                got = "ok"
+            elif op == "reset":
+                objs[obj].reset()
+                got = "ok"
             elif op == "fit":
                 objs[obj].fit(data[arg])
                 got = "ok"
@@ -285,7 +295,7 @@ def run_history(args):
             break  # e.g. a detector without transform_scores: the model assumed a normal return; stop here
         # hyper-parameters change only through set_params / clone; inputs are never modified
         for d in objs:
-            if op in ("set_params", "clone", "deepcopy") and d in (obj, arg):
+            if op in ("set_params", "clone", "deepcopy", "pickle") and d in (obj, arg):
                 continue
             if repr(objs[d].get_params(deep=True)) != params_before[d]:
                 fails.append(("hyper_parameters_modified", {**where, "detector": d}))
@@ -496,7 +506,7 @@ def update_merge_stage(chk, tier, wd):
 def run(tier: str) -> int:
     _check_pairs()
     chk = Check(PROP, tier)
-    chk.rule = ("stage A: all histories up to MaxLen over an alphabet of ~70 calls (2 detectors x {set_params x2, clone, deepcopy, fit_predict/fit_transform/update_predict x4 datasets, "
+    chk.rule = ("stage A: all histories up to MaxLen over an alphabet of ~70 calls (2 detectors x {set_params x2, reset, clone, deepcopy, pickle round trip, fit_predict/fit_transform/update_predict x4 datasets, "
                 "fit/update x4 datasets, predict/transform/transform_scores x4 datasets} + scorer fit/evaluate), shared or "
                 "private scorer object, fit tuning none/one/both; stage B: histories of length 3 (a seeded slice, all in "
                 "thorough) and sampled longer ones, each executed on the compatible detector pairs out of 11 "
